@@ -1,6 +1,10 @@
 -- GENERATED: axiom audit of the property theorems of C17
 import SquidModel.Properties.C17
+#print axioms SquidModel.C17.ufs_history_preserved_partial
+#print axioms SquidModel.C17.ufs_history_preserved_sync_unlink
+#print axioms SquidModel.C17.clean_image_rebuild_restores_all
 #print axioms SquidModel.C17.ufs_unlink_race_counterexample
 #print axioms SquidModel.C17.rock_single_slot_restored
+#print axioms SquidModel.C17.rock_single_chain_restored
 #print axioms SquidModel.C17.rock_stale_cell_drops_entry_counterexample
 #print axioms SquidModel.C17.rock_purged_entry_returns_counterexample
